@@ -55,7 +55,30 @@ kani_unit("f62", "winter-math", "math/src/field/f62/mod.rs", "kani/math_f62.rs",
       "Ok/Some iff len == 8 and le(bytes) < M; representative < 2M"),
     H("f62_read_from_contract", ["C07", "C12", "C06"], ["f62::Deserializable::read_from"],
       "forall byte strings <= 9 bytes: Ok iff >= 8 bytes and le < M; representative < 2M; exactly 8 bytes consumed; never panics"),
+    H("f62_inv_zero_contract", ["C07"], ["f62::inv"], "inv(0) == inv(M) == 0 (both representatives of zero; terminates)"),
     H("f62_canary_must_fail", ["C07"], [], "false claim: add(a,b) < M", canary=True),
+])
+
+kani_unit("f128", "winter-math", "math/src/field/f128/mod.rs", "kani/math_f128.rs", "field::f128", [
+    H("f128_constants_contract", ["C07"], ["f128::M", "f128::G", "f128::TWO_ADICITY", "f128::get_modulus_le_bytes"],
+      "M == 2^128 - 45*2^40 + 1; M-1 == 2^40 * odd; generator 3; published constants"),
+    H("f128_add_contract", ["C07"], ["f128::add", "f128::Add::add", "f128::AddAssign"], "forall a,b < M: r < M and r == a+b mod M"),
+    H("f128_sub_neg_contract", ["C07"], ["f128::sub", "f128::Sub::sub", "f128::SubAssign", "f128::Neg::neg"],
+      "forall a,b < M: sub r < M, r == a-b mod M; neg(a) == -a mod M (canonical, -0 == 0); a + (-a) == 0"),
+    H("f128_new_as_int_eq_contract", ["C07"], ["f128::new", "f128::as_int", "f128::PartialEq", "f128::double"],
+      "new(v) == v mod M (canonical); as_int is the raw word; == is equality of residues; double == a+a"),
+    H("f128_conversions_contract", ["C07"], ["f128::From<u8|u16|u32|u64>", "f128::TryFrom<u128>"], "from(v) denotes v; try_from Ok iff v < M"),
+    H("f128_try_from_slice_contract", ["C07", "C19"], ["f128::TryFrom<&[u8]>", "f128::Randomizable::from_random_bytes"],
+      "Ok/Some iff len == 16 and le(bytes) < M; element canonical and equal to le(bytes)"),
+    H("f128_serde_contract", ["C07", "C12"], ["f128::Serializable::write_into", "f128::Deserializable::read_from", "f128::AsBytes::as_bytes"],
+      "write_into emits le(residue) (16 bytes); read_from(write_into(a)) == a, all bytes consumed; as_bytes likewise"),
+    H("f128_read_from_contract", ["C07", "C12", "C06"], ["f128::Deserializable::read_from"],
+      "forall byte strings <= 17 bytes: Ok iff >= 16 bytes and le < M; element == le; exactly 16 bytes consumed; never panics"),
+    H("f128_add64_with_carry_contract", ["C07"], ["f128::add64_with_carry"], "exact 65-bit sum of two limbs and a carry"),
+    H("f128_add_192_contract", ["C07"], ["f128::add_192x192"], "three-limb addition == 192-bit sum modulo 2^192"),
+    H("f128_sub_192_contract", ["C07"], ["f128::sub_192x192"], "three-limb subtraction == 192-bit difference modulo 2^192"),
+    H("f128_sub_modulus_contract", ["C07"], ["f128::sub_modulus"], "sub_modulus(a) == a - M modulo 2^128"),
+    H("f128_canary_must_fail", ["C07"], [], "false claim: add(a,b) >= a", canary=True),
 ])
 
 PROPS["C07"] = dict(
